@@ -278,7 +278,13 @@ class Search(abc.ABC):
                 mask_pareto_front = non_dominated_set(objectives)
                 df["pareto_efficient"] = False
                 df.loc[mask_no_failures, "pareto_efficient"] = mask_pareto_front
-                df.to_csv(df_path, index=False)
+
+                # The new content is written to a temporary file of the same directory which then
+                # atomically replaces the results: rewriting the results in place would truncate
+                # them first and an interruption at this moment would lose all the evaluations.
+                df_path_tmp = df_path + ".tmp"
+                df.to_csv(df_path_tmp, index=False)
+                os.replace(df_path_tmp, df_path)
 
     def _search(self, max_evals, timeout, max_evals_strict=False):
         """Search algorithm logic.
